@@ -352,6 +352,50 @@ let handle (b : Buffer.t) (op : Stdlib.String.t) (args : Stdlib.String.t list) :
     let fm = format_of f in
     let (m, _) = parse_msg rest in
     Buffer.add_string b "ok "; print_msg b (msg_norm (canon_msg fm m))
+  | "canonv", f :: rest ->
+    let fm = format_of f in
+    let (v, _) = parse_value2 rest in
+    Buffer.add_string b "ok "; print_value b (value_norm (canon fm v))
+  | "diag", [f; h] ->
+    (* why the intended model rejects what the implementation accepted: the
+       first item that is not compatible with its field, or a non-list *)
+    let fm = format_of f in
+    let bs = bytes_of_hex h in
+    (match decode_value fparse_go gen_mp_opts fm bs with
+     | DOk (VList _, _) | DUnsup | DErr | DFuel ->
+       (match items_of fparse_go gen_mp_opts shape_gen fm bs with
+        | SOk (c :: rest, _) ->
+          let is_list = (match decode_value fparse_go gen_mp_opts fm bs with DOk (VList _, _) -> true | _ -> false) in
+          if not is_list then Buffer.add_string b "top=not-a-list"
+          else
+          (match code_of (code_rule_of shape_gen fm) c with
+           | None -> Buffer.add_string b "code=unacceptable"
+           | Some code ->
+             (match find_new code gen_schema.sc_new with
+              | None -> Buffer.add_string b "code=unknown"
+              | Some nc ->
+                (match find_struct nc.n_struct gen_schema.sc_structs with
+                 | None -> Buffer.add_string b "struct=missing"
+                 | Some sd ->
+                   let rec go i fs its = match fs, its with
+                     | f :: fs', it :: its' ->
+                       if compatible f.f_kind it then go (i + 1) fs' its'
+                       else begin
+                         let fk = (match f.f_kind with FKId -> "id" | FKUri -> "uri" | FKStr -> "string" | FKDict -> "dict"
+                                                    | FKList -> "list" | FKMsgType -> "msgtype" | FKOther -> "other") in
+                         let ik = (match it with
+                             | VNull -> "nil" | VBool _ -> "bool"
+                             | VInt (KI64, z) -> (match z with Zneg _ -> "negative-int64" | _ -> "int64")
+                             | VInt (KU64, _) -> "uint64" | VFloat _ -> "float64" | VStr _ -> "string" | VBin _ -> "bytes"
+                             | VList _ -> "list" | VDict _ -> "dict") in
+                         Buffer.add_string b (Printf.sprintf "field=%d fkind=%s item=%s" i fk ik)
+                       end
+                     | _, _ -> Buffer.add_string b "all-compatible" in
+                   go 1 sd.s_fields rest)))
+        | SOk ([], _) -> Buffer.add_string b "empty"
+        | _ -> Buffer.add_string b "undecodable")
+     | DOk (VDict _, _) -> Buffer.add_string b "top=map"
+     | DOk (_, _) -> Buffer.add_string b "top=not-a-list")
   | "equiv", rest ->
     let (a, c) = split_semicolon rest in
     let (m, _) = parse_msg a in
